@@ -349,7 +349,29 @@ func Corpus(tier string, embedded []*Schema) []*Schema {
 		ma.field("b", 1, tMessage, mbb.path)
 		mbb.field("a", 1, tMessage, ma.path)
 		mbb.field("n", 2, tSint32, "")
-		f.MessageType = append(f.MessageType, outer.msg, rec.msg, ma.msg, mbb.msg)
+		// declarations reached through different, non-zero indexes at every level (index paths of four and five elements)
+		deep := newMsg(pkg, "Deep")
+		deep.nested("A0").field("a", 1, tBool, "")
+		a1 := deep.nested("A1")
+		a1.nested("B0").field("b", 1, tBool, "")
+		a1.nested("B1").field("b", 1, tInt32, "")
+		b2 := a1.nested("B2")
+		b2.nested("C0").field("c", 1, tString, "")
+		c1 := b2.nested("C1")
+		c1.msg.EnumType = append(c1.msg.EnumType, enum("First", "FIRST_ZERO", 0), enum("Second", "SECOND_ZERO", 0, "SECOND_ONE", 1))
+		c1.field("second", 1, tEnum, c1.path+".Second")
+		c1.field("up", 2, tMessage, a1.path)
+		// enums spread over the tree so that declaration order, depth-first order and "all messages" order differ
+		deep.msg.NestedType[0].EnumType = append(deep.msg.NestedType[0].EnumType, enum("InA0", "IN_A0_ZERO", 0, "IN_A0_ONE", 1))
+		a1.msg.NestedType[0].EnumType = append(a1.msg.NestedType[0].EnumType, enum("InB0", "IN_B0_ZERO", 0, "IN_B0_TWO", 2))
+		a1.msg.EnumType = append(a1.msg.EnumType, enum("InA1", "IN_A1_ZERO", 0, "IN_A1_THREE", 3))
+		deep.msg.EnumType = append(deep.msg.EnumType, enum("InDeep", "IN_DEEP_ZERO", 0, "IN_DEEP_FOUR", 4))
+		deep.field("e_a0", 2, tEnum, deep.path+".A0.InA0")
+		deep.field("e_b0", 3, tEnum, a1.path+".B0.InB0")
+		deep.field("e_a1", 4, tEnum, a1.path+".InA1")
+		deep.repeated("e_deep", 5, tEnum, deep.path+".InDeep")
+		deep.field("leaf", 1, tMessage, c1.path)
+		f.MessageType = append(f.MessageType, outer.msg, rec.msg, ma.msg, mbb.msg, deep.msg)
 		add(&Schema{Name: "nest", Files: []*descriptorpb.FileDescriptorProto{f}})
 	}
 
@@ -372,6 +394,11 @@ func Corpus(tier string, embedded []*Schema) []*Schema {
 		bm.member(o, "x_shared", 7, tMessage, am.path)
 		bm.member(o, "x_kind", 8, tEnum, ".vc.imp.a.Kind")
 		fb.MessageType = append(fb.MessageType, bm.msg)
+		// a service whose methods take and return messages of the imported file
+		fb.Service = append(fb.Service, &descriptorpb.ServiceDescriptorProto{Name: proto.String("Users"), Method: []*descriptorpb.MethodDescriptorProto{
+			{Name: proto.String("Lookup"), InputType: proto.String(am.path), OutputType: proto.String(bm.path)},
+			{Name: proto.String("Share"), InputType: proto.String(bm.path), OutputType: proto.String(am.path), ClientStreaming: proto.Bool(true)},
+		}})
 		add(&Schema{Name: "imp", Files: []*descriptorpb.FileDescriptorProto{fa, fb}})
 		// only b requested: a must not be generated
 		add(&Schema{Name: "imp_only_b", Files: []*descriptorpb.FileDescriptorProto{fa, fb}, Generate: []string{"vc/imp/b.proto"}, Tier: "thorough"})
@@ -892,8 +919,80 @@ func Corpus(tier string, embedded []*Schema) []*Schema {
 			OutMap: map[string]string{"a/a.pulsar.go": goPkg("modopt", "a") + "/a.pulsar.go", "b/b.pulsar.go": goPkg("modopt", "b") + "/b.pulsar.go"}})
 		fa, fb = pair("mmap")
 		add(&Schema{Name: "mmap", Files: []*descriptorpb.FileDescriptorProto{fa, fb}, Param: "Mvc/mmap/a.proto=" + goPkg("mmap", "a2") + ",features=protoc+fast"})
+		// pool= names Go types for memory pooling; no feature of this plugin uses it, so the output is the ordinary one
+		fa, fb = pair("poolopt")
+		add(&Schema{Name: "poolopt", Files: []*descriptorpb.FileDescriptorProto{fa, fb}, Param: "pool=" + goPkg("poolopt", "a") + ".Shared,pool=" + goPkg("poolopt", "b") + ".User,features=fast+protoc"})
+		// protogen's own parameter annotate_code=true: every annotation the generator makes must name a symbol it emits
+		{
+			an := file("vc/annotated.proto", "vc.annotated", goPkg("annotated", ""))
+			an.EnumType = append(an.EnumType, enum("Mode", "MODE_UNSPECIFIED", 0, "MODE_ON", 1))
+			am := newMsg("vc.annotated", "Holder")
+			am.field("name", 1, tString, "")
+			am.mapField("labels", 2, tString, tString, "")
+			am.mapField("by_id", 3, tInt64, tMessage, ".vc.annotated.Holder")
+			ao := am.oneof("choice")
+			am.member(ao, "mode", 4, tEnum, ".vc.annotated.Mode")
+			am.member(ao, "text", 5, tString, "")
+			in := am.nested("Inner")
+			in.field("v", 1, tInt32, "")
+			an.MessageType = append(an.MessageType, am.msg)
+			an.SourceCodeInfo = commentEverything(an)
+			add(&Schema{Name: "annotated", Files: []*descriptorpb.FileDescriptorProto{an}, Param: "annotate_code=true"})
+		}
 		fa, fb = pair("revorder")
 		add(&Schema{Name: "revorder", Files: []*descriptorpb.FileDescriptorProto{fa, fb}, Generate: []string{"vc/revorder/b.proto", "vc/revorder/a.proto"}})
+	}
+
+	// ---- valid proto3 the repository's own schemas never use: a public import, an extension declared inside a message,
+	// a dependency whose Go package is called like a local of the generated code
+	{
+		mk := func(schema, optsPkg, inPkg string) []*descriptorpb.FileDescriptorProto {
+			base := "vc." + schema
+			fo := file("vc/"+schema+"/"+optsPkg+"/o.proto", base+"."+optsPkg, goPkg(schema, optsPkg))
+			fo.EnumType = append(fo.EnumType, enum("Level", "LEVEL_UNSPECIFIED", 0, "LEVEL_HIGH", 1))
+			om := newMsg(base+"."+optsPkg, "Settings")
+			om.field("verbose", 1, tBool, "")
+			fo.MessageType = append(fo.MessageType, om.msg)
+			fi := file("vc/"+schema+"/"+inPkg+"/i.proto", base+"."+inPkg, goPkg(schema, inPkg))
+			im := newMsg(base+"."+inPkg, "Item")
+			im.field("id", 1, tInt64, "")
+			fi.MessageType = append(fi.MessageType, im.msg)
+			// mid re-exports o.proto
+			fm := file("vc/"+schema+"/mid.proto", base+".mid", goPkg(schema, "mid"), fo.GetName())
+			fm.PublicDependency = []int32{0}
+			mm := newMsg(base+".mid", "Mid")
+			mm.field("settings", 1, tMessage, om.path)
+			fm.MessageType = append(fm.MessageType, mm.msg)
+			// top uses both packages (through the public import and directly)
+			ft := file("vc/"+schema+"/top.proto", base+".top", goPkg(schema, "top"), fm.GetName(), fi.GetName(), fo.GetName())
+			tm := newMsg(base+".top", "Top")
+			tm.field("settings", 1, tMessage, om.path)
+			tm.field("level", 2, tEnum, "."+base+"."+optsPkg+".Level")
+			tm.repeated("items", 3, tMessage, im.path)
+			tm.mapField("by_name", 4, tString, tMessage, om.path)
+			tm.field("mid", 5, tMessage, mm.path)
+			ft.MessageType = append(ft.MessageType, tm.msg)
+			return []*descriptorpb.FileDescriptorProto{fo, fi, fm, ft}
+		}
+		add(&Schema{Name: "pubimp", Files: mk("pubimp", "settings", "items")})
+		// the same with the dependencies' Go packages called like locals of the generated closures (`options`, `input`):
+		// known finding F21, isolated here
+		add(&Schema{Name: "pkglocals", Files: mk("pkglocals", "options", "input"), Known: "F21"})
+	}
+	{
+		f := file("vc/nestedext.proto", "vc.nestedext", goPkg("nestedext", ""), "google/protobuf/descriptor.proto")
+		m := newMsg("vc.nestedext", "Scope")
+		m.field("name", 1, tString, "")
+		m.msg.Extension = append(m.msg.Extension, &descriptorpb.FieldDescriptorProto{Name: proto.String("note"), Number: proto.Int32(50001), Type: tString.Enum(),
+			Label: descriptorpb.FieldDescriptorProto_LABEL_OPTIONAL.Enum(), JsonName: proto.String("note"), Extendee: proto.String(".google.protobuf.FieldOptions")})
+		m.msg.Extension = append(m.msg.Extension, &descriptorpb.FieldDescriptorProto{Name: proto.String("weight"), Number: proto.Int32(50002), Type: tInt32.Enum(),
+			Label: descriptorpb.FieldDescriptorProto_LABEL_OPTIONAL.Enum(), JsonName: proto.String("weight"), Extendee: proto.String(".google.protobuf.MessageOptions")})
+		in := m.nested("Inner")
+		in.field("v", 1, tInt32, "")
+		in.msg.Extension = append(in.msg.Extension, &descriptorpb.FieldDescriptorProto{Name: proto.String("inner_note"), Number: proto.Int32(50003), Type: tMessage.Enum(), TypeName: proto.String(".vc.nestedext.Scope"),
+			Label: descriptorpb.FieldDescriptorProto_LABEL_OPTIONAL.Enum(), JsonName: proto.String("innerNote"), Extendee: proto.String(".google.protobuf.FieldOptions")})
+		f.MessageType = append(f.MessageType, m.msg)
+		add(&Schema{Name: "nestedext", Files: []*descriptorpb.FileDescriptorProto{f}})
 	}
 
 	// ---- requests that must not produce code
